@@ -94,6 +94,8 @@ def main():
         prev = {}
         if os.path.exists(os.path.join(dst, "meta.json")):
             prev = json.load(open(os.path.join(dst, "meta.json")))
+        if prev.get("note"):
+            out["note"] = prev["note"]
         if prev.get("caught_by") and not run_all:
             out["caught_by"] = sorted(set(prev["caught_by"]) | set(caught_by)) if pid in caught_by else [p for p in prev["caught_by"] if p != pid] + caught_by
         shutil.copy(os.path.join(src, "patch.diff"), dst)
